@@ -329,73 +329,83 @@ def charstring_positions(ctx):
     CSX = 'unicode::CharString::'
     SELF = ('arg', 1, ANY)
     BSE = lambda arg: Call(CSX + 'byte_start_end', SELF, arg)
+    def scan(b, what):
+        """the run scan inside body b (byte_start_end itself, or a function the scan was moved / inlined into): checks guard, carries and initial values; returns (returned value, poly of num_bytes, poly of the start of character n)"""
+        loops = cfg.loops(b)
+        if len(loops) != 1:
+            raise AnchorMissing('the run loop of byte_start_end (found %d loops)' % len(loops))
+        lp = loops[0]
+        nx = [t for t in b.calls(r'::next$') if t.bb in lp.blocks]
+        if len(nx) != 1 or not has(core(loop_source(b, nx[0])), ('field', SELF, 'rle_cluster_lengths')):
+            raise AnchorMissing('byte_start_end iterates self.rle_cluster_lengths')
+        it = ('unwrap', nosite(sym(b, nx[0].dest)))
+        nb_, cnt_ = poly.poly(core(('field', it, 0))), poly.poly(core(('field', it, 1)))
+        st_l = [l for l in range(len(b.locals)) if b.var_name(l) == 'start']
+        named = {b.var_name(l): l for l in range(len(b.locals)) if b.var_name(l)}
+        accs = [l for l in state_locals(b, r'^usize$')]
+        rows = {'ret': [], 'back': []}
+        for p, end in pathx.paths_from(b, lp.header) or ():
+            pe = pathx.eval_versioned(b, p, {}, lambda e, pe_: ())
+            if pe is None or end[0] == 'exit':
+                continue
+            rows['ret' if end[0] == 'return' else 'back'].append((p, pe))
+        if len(rows['ret']) != 1 or len(rows['back']) != 1:
+            raise AnchorMissing('byte_start_end: one returning and one continuing path per run (found %d / %d)' % (len(rows['ret']), len(rows['back'])))
+        (pr, per), (pb, peb) = rows['ret'][0], rows['back'][0]
+        n_ = poly.poly(('arg', 2, 'n'))
+        ret = peel(per.env.get(0)) if per.env.get(0) is not None else None
+        # the accumulators: the two usize state locals; which is which follows from the guard n < total + count
+        guard = [(core(t), pol) for t, pol in per.atoms if core(t)[0] == 'bin' and core(t)[1] in ('Lt', 'Le', 'Gt', 'Ge')]
+        tot = None
+        for l in accs:
+            v = ('var', b.var_name(l) or '', l)
+            for t, pol in guard:
+                lhs, rhs = (t[2], t[3]) if t[1] in ('Lt', 'Le') else (t[3], t[2])
+                strict = (t[1] in ('Lt', 'Gt')) == bool(pol) if pol else None
+                if pol is True and t[1] in ('Lt', 'Gt') and poly.poly(lhs) == n_ and poly.poly(rhs) == poly._add(poly.poly(v), cnt_, 1):
+                    tot = l
+        ctx.require(tot is not None, b, 'bse-guard', 'byte_start_end returns from the run that contains n: `n < total_count + count` (strict)',
+                    'byte_start_end returns under %s' % [('' if pol else '!') + show_in(b, t)[:60] for t, pol in guard], b.blocks[pr[-1]].term.span)
+        if tot is None or ret is None:
+            return None
+        startl = [l for l in accs if l != tot]
+        if len(startl) != 1:
+            raise AnchorMissing('byte_start_end: the byte offset accumulator')
+        sv, tv = poly.poly(('var', b.var_name(startl[0]) or '', startl[0])), poly.poly(('var', b.var_name(tot) or '', tot))
+        want0 = poly._add(sv, poly._mul(nb_, poly._add(n_, tv, -1)), 1)
+        ds = peb.env.get(startl[0])
+        okds = ds is not None and poly._add(poly.poly(ds), sv, -1) == poly._mul(cnt_, nb_)
+        ctx.require(okds, b, 'bse-carry-bytes', 'a skipped run adds count * num_bytes to the byte offset', 'a skipped run changes the byte offset to `%s`' % (show_in(b, ds)[:80] if ds else 'nothing'))
+        dt = peb.env.get(tot)
+        okdt = dt is not None and poly._add(poly.poly(dt), tv, -1) == cnt_
+        if not okdt:
+            # `total_count += *count` through AddAssign<&usize>
+            okdt = any(e[0] == 'call' and (e[1].callee_res() or '').endswith('add_assign') and core(e[2][0])[0] == 'var' and core(e[2][0])[2] == tot and
+                       poly.poly(core(e[2][1])) == cnt_ for e in peb.events)
+        ctx.require(okdt, b, 'bse-carry-count', 'a skipped run adds count to the character counter', 'a skipped run does not add its count to the character counter')
+        inits = {l: [core(v) for s_, v in local_defs(b, l) if cfg.dominates(b, s_.bb, lp.header)] for l in (startl[0], tot)}
+        ctx.require(all(len(v) == 1 and v[0][0] == 'const' and v[0][2] == 0 for v in inits.values()), b, 'bse-init', 'both accumulators start at 0', 'initial values: %s' % inits)
+        return ret, nb_, want0, b.blocks[pr[-1]].term.span
+
     # ---- byte_start_end
     b = ctx.body(CSX + 'byte_start_end')
-    loops = cfg.loops(b)
-    if len(loops) != 1:
-        raise AnchorMissing('the run loop of byte_start_end (found %d loops)' % len(loops))
-    lp = loops[0]
-    nx = [t for t in b.calls(r'::next$') if t.bb in lp.blocks]
-    if len(nx) != 1 or not has(core(loop_source(b, nx[0])), ('field', SELF, 'rle_cluster_lengths')):
-        raise AnchorMissing('byte_start_end iterates self.rle_cluster_lengths')
-    it = ('unwrap', nosite(sym(b, nx[0].dest)))
-    nb_, cnt_ = poly.poly(core(('field', it, 0))), poly.poly(core(('field', it, 1)))
-    st_l = [l for l in range(len(b.locals)) if b.var_name(l) == 'start']
-    named = {b.var_name(l): l for l in range(len(b.locals)) if b.var_name(l)}
-    accs = [l for l in state_locals(b, r'^usize$')]
-    rows = {'ret': [], 'back': []}
-    for p, end in pathx.paths_from(b, lp.header) or ():
-        pe = pathx.eval_versioned(b, p, {}, lambda e, pe_: ())
-        if pe is None or end[0] == 'exit':
-            continue
-        rows['ret' if end[0] == 'return' else 'back'].append((p, pe))
-    if len(rows['ret']) != 1 or len(rows['back']) != 1:
-        raise AnchorMissing('byte_start_end: one returning and one continuing path per run (found %d / %d)' % (len(rows['ret']), len(rows['back'])))
-    (pr, per), (pb, peb) = rows['ret'][0], rows['back'][0]
-    n_ = poly.poly(('arg', 2, 'n'))
-    ret = peel(per.env.get(0))
-    okr = ret is not None and ret[0] == 'agg' and ret[1] == 'tuple' and len(ret[3]) == 2
-    # the accumulators: the two usize state locals; which is which follows from the guard n < total + count
-    guard = [(core(t), pol) for t, pol in per.atoms if core(t)[0] == 'bin' and core(t)[1] in ('Lt', 'Le', 'Gt', 'Ge')]
-    tot = None
-    for l in accs:
-        v = ('var', b.var_name(l) or '', l)
-        for t, pol in guard:
-            lhs, rhs = (t[2], t[3]) if t[1] in ('Lt', 'Le') else (t[3], t[2])
-            strict = (t[1] in ('Lt', 'Gt')) == bool(pol) if pol else None
-            if pol is True and t[1] in ('Lt', 'Gt') and poly.poly(lhs) == n_ and poly.poly(rhs) == poly._add(poly.poly(v), cnt_, 1):
-                tot = l
-    ctx.require(tot is not None, b, 'bse-guard', 'byte_start_end returns from the run that contains n: `n < total_count + count` (strict)',
-                'byte_start_end returns under %s' % [('' if pol else '!') + show_in(b, t)[:60] for t, pol in guard], b.blocks[pr[-1]].term.span)
-    if tot is None or not okr:
-        return
-    startl = [l for l in accs if l != tot]
-    if len(startl) != 1:
-        raise AnchorMissing('byte_start_end: the byte offset accumulator')
-    sv, tv = poly.poly(('var', b.var_name(startl[0]) or '', startl[0])), poly.poly(('var', b.var_name(tot) or '', tot))
-    want0 = poly._add(sv, poly._mul(nb_, poly._add(n_, tv, -1)), 1)
-    ok0 = poly.poly(core(ret[3][0])) == want0
-    ok1 = poly._add(poly.poly(core(ret[3][1])), poly.poly(core(ret[3][0])), -1) == nb_
-    ctx.require(ok0, b, 'bse-start', 'start of character n = bytes before the run + num_bytes * (n - characters before the run)',
-                'byte_start_end returns the start `%s`' % show_in(b, ret[3][0])[:100], b.blocks[pr[-1]].term.span)
-    ctx.require(ok1, b, 'bse-end', 'end of character n = its start + num_bytes of the run', 'byte_start_end returns the end `%s`' % show_in(b, ret[3][1])[:100],
-                b.blocks[pr[-1]].term.span)
-    ds = peb.env.get(startl[0])
-    okds = ds is not None and poly._add(poly.poly(ds), sv, -1) == poly._mul(cnt_, nb_)
-    ctx.require(okds, b, 'bse-carry-bytes', 'a skipped run adds count * num_bytes to the byte offset', 'a skipped run changes the byte offset to `%s`' % (show_in(b, ds)[:80] if ds else 'nothing'))
-    dt = peb.env.get(tot)
-    okdt = dt is not None and poly._add(poly.poly(dt), tv, -1) == cnt_
-    if not okdt:
-        # `total_count += *count` through AddAssign<&usize>
-        okdt = any(e[0] == 'call' and (e[1].callee_res() or '').endswith('add_assign') and core(e[2][0])[0] == 'var' and core(e[2][0])[2] == tot and
-                   poly.poly(core(e[2][1])) == cnt_ for e in peb.events)
-    ctx.require(okdt, b, 'bse-carry-count', 'a skipped run adds count to the character counter', 'a skipped run does not add its count to the character counter')
-    inits = {l: [core(v) for s_, v in local_defs(b, l) if cfg.dominates(b, s_.bb, lp.header)] for l in (startl[0], tot)}
-    ctx.require(all(len(v) == 1 and v[0][0] == 'const' and v[0][2] == 0 for v in inits.values()), b, 'bse-init', 'both accumulators start at 0', 'initial values: %s' % inits)
+    sc = scan(b, 'byte_start_end')
+    if sc is not None:
+        ret, nb_, want0, rspan = sc
+        okr = ret[0] == 'agg' and ret[1] == 'tuple' and len(ret[3]) == 2
+        ok0 = okr and poly.poly(core(ret[3][0])) == want0
+        ok1 = okr and poly._add(poly.poly(core(ret[3][1])), poly.poly(core(ret[3][0])), -1) == nb_
+        ctx.require(ok0, b, 'bse-start', 'start of character n = bytes before the run + num_bytes * (n - characters before the run)',
+                    'byte_start_end returns the start `%s`' % (show_in(b, ret[3][0])[:100] if okr else show_in(b, ret)[:100]), rspan)
+        ctx.require(ok1, b, 'bse-end', 'end of character n = its start + num_bytes of the run', 'byte_start_end returns the end `%s`' % (show_in(b, ret[3][1])[:100] if okr else '?'), rspan)
     # ---- char_byte_len
     c = ctx.body(CSX + 'char_byte_len')
     rv = ret_values(c)
     ok = len(rv) == 1 and match(core(rv[0][0]), ('bin', 'Sub', ('field', BSE(('arg', 2, ANY)), 1), ('field', BSE(('arg', 2, ANY)), 0)))
+    if not ok and cfg.loops(c):
+        # the run scan itself (moved into a helper that both functions call): the length of character n is the num_bytes of its run
+        sc2 = scan(c, 'char_byte_len')
+        ok = sc2 is not None and poly.poly(core(sc2[0])) == sc2[1]
     ctx.require(ok, c, 'char-byte-len', 'char_byte_len(n) = end - start of byte_start_end(n)', 'char_byte_len is %s' % [show_in(c, v)[:80] for v, _ in rv])
     # ---- char_range_to_byte_range
     r = ctx.body(CSX + 'char_range_to_byte_range')
@@ -448,15 +458,41 @@ def charstring_positions(ctx):
         ctx.require(ok, s_, 'sub-slice', 'sub(a, b) = &self.str[bytes of the characters min(a, len) .. min(b, len)]', 'sub returns %s' % show_in(s_, init_value(s_, v))[:140],
                     s_.blocks[blk].term.span)
     ctx.require(n_slices == 1, s_, 'sub-one-slice', 'sub has one slicing result', 'found %d' % n_slices)
+    # ---- len / is_empty / the stored length
+    ln = ctx.body(CSX + 'len')
+    rvl = ret_values(ln)
+    ctx.require(len(rvl) == 1 and match(core(rvl[0][0]), ('field', SELF, 'len')), ln, 'len', 'len() = the stored number of characters', 'len() is %s' % [show_in(ln, v)[:60] for v, _ in rvl])
+    ie = ctx.body(CSX + 'is_empty')
+    rvi = ret_values(ie)
+    ctx.require(len(rvi) == 1 and match(core(rvi[0][0]), ('bin', 'Eq', ('field', SELF, 'len'), Const(0))), ie, 'is-empty', 'is_empty() = (len == 0)',
+                'is_empty() is %s' % [show_in(ie, v)[:60] for v, _ in rvi])
+    nw = ctx.body(CSX + 'new')
+    rvn = [v for v, _ in ret_values(nw) if peel(v)[0] == 'agg']
+    okl = False
+    if len(rvn) == 1:
+        fl = agg_field(ctx.facts, peel(rvn[0]), 'len')
+        rl = agg_field(ctx.facts, peel(rvn[0]), 'rle_cluster_lengths')
+        if fl is not None and rl is not None:
+            cl = core(fl)
+            okl = cl[0] == 'call' and cl[1].endswith('Vec::len') and any(isinstance(x, tuple) and x and nosite(core(x)) == nosite(core(cl[2][0])) for x in walk(core(rl)))
+    ctx.require(okl, nw, 'stored-len', 'the stored length is the number of cluster lengths the run-length table is built from', None)
     # ---- chars / get_char / Character accessors
     from analysis.seq import seq_of_iter, ITEM as _IT
     from rules.common import range_bounds
+    def _char_of(e):
+        # Character { str: &self.str[start..end] } with (start, end) = byte_start_end(i): what get_char(i).unwrap() is for i < len
+        e = core(e)
+        if not (e[0] == 'agg' and e[2].endswith('Character::Character') and len(e[3]) == 1):
+            return False
+        sl = str_slice(e[3][0])
+        return sl is not None and match(core(sl[0]), ('field', ANY, 'str')) and sl[1] is not None and sl[2] is not None and \
+            match(core(sl[1]), ('field', Call(CSX + 'byte_start_end', ANY, _IT), 0)) and match(core(sl[2]), ('field', Call(CSX + 'byte_start_end', ANY, _IT), 1))
     ch = ctx.body(CSX + 'chars')
     rvc = ret_values(ch)
     segs = seq_of_iter(ctx.facts, ch, rvc[0][0]) if len(rvc) == 1 else None
     ok = segs is not None and len(segs) == 1 and segs[0].kind == 'each' and not segs[0].conds and range_bounds(segs[0].src) is not None and \
         range_bounds(segs[0].src)[0] == 0 and match(range_bounds(segs[0].src)[1], Call(CSX + 'len', SELF)) and \
-        match(core(segs[0].elem), Call(CSX + 'get_char', ANY, _IT))
+        (match(core(segs[0].elem), Call(CSX + 'get_char', ANY, _IT)) or _char_of(segs[0].elem))
     ctx.require(ok, ch, 'chars-all', 'chars() yields get_char(i) for every i in 0..len(), in order', 'chars() is %s' % [repr(x)[:120] for x in segs or ()])
     gc = ctx.body(CSX + 'get_char')
     rvg = ret_values(gc)
@@ -465,6 +501,17 @@ def charstring_positions(ctx):
         from analysis.seq import apply_fn
         e = core(apply_fn(ctx.facts, peel(rvg[0][0])[2][1], (('probe',),)))
         okg = e[0] == 'agg' and e[2].endswith('Character::Character') and len(e[3]) == 1 and e[3][0] == ('probe',)
+    if not okg:
+        # written out: match self.get(n) { Some(str) => Some(Character { str }), None => None }
+        from analysis.alts import ret_table
+        GET = Call(CSX + 'get', SELF, ('arg', 2, ANY))
+        tbl = ret_table(ctx.facts, gc, lambda c: match(c, GET)) or {}
+        sm, nn = tbl.get('Some', []), tbl.get('None', [])
+        okg = set(tbl) == {'Some', 'None'} and len(sm) == 1 and len(nn) == 1 and peel(nn[0])[0] == 'agg' and peel(nn[0])[2].endswith('Option::None')
+        if okg:
+            v = peel(sm[0])
+            okg = v[0] == 'agg' and v[2].endswith('Option::Some') and core(v[3][0])[0] == 'agg' and core(v[3][0])[2].endswith('Character::Character') and \
+                len(core(v[3][0])[3]) == 1 and (match(core(core(v[3][0])[3][0]), GET) or match(core(core(v[3][0])[3][0]), ('field', ('variant', GET, 'Some'), 0)))
     ctx.require(okg, gc, 'get-char', 'get_char(n) = get(n) wrapped into a Character', 'get_char is %s' % [show_in(gc, v)[:80] for v, _ in rvg])
     for fn, pat, what in (('unicode::Character::code_points', Call('str::chars', ('field', SELF, 'str')), 'the code points of its text'),
                           ('unicode::Character::byte_len', Call('str::len', ('field', SELF, 'str')), 'the byte length of its text')):
@@ -474,6 +521,60 @@ def charstring_positions(ctx):
                     '%s = %s' % (fn, what), '%s is %s' % (fn, [show_in(x, v)[:80] for v, _ in rvx]))
 
 
+def run_length_table(ctx):
+    """utils::run_length_encode groups equal neighbours (count + 1 on an equal element; otherwise push (value, count), restart at 1; the
+    last run is pushed after the loop) and run_length_decode repeats every value count times: the table CharString stores IS the
+    sequence of cluster lengths"""
+    from rules.common import iteration_table
+    from analysis.seq import seq_of_var, ITEM as _IT
+    e = ctx.body('utils::run_length_encode')
+    named = {e.var_name(l): l for l in range(len(e.locals)) if e.var_name(l)}
+    lps = cfg.loops(e)
+    ints = state_locals(e, r'^usize$')
+    if len(lps) != 1 or len(ints) != 1:
+        raise AnchorMissing('run_length_encode: one loop and one counter (found %d / %d)' % (len(lps), len(ints)))
+    cnt = ints[0]
+    rows = iteration_table(e, lps[0], {'count': cnt}) or []
+    pushes_all = [t for t in e.calls(r'Vec::push$')]
+    seen = set()
+    for row in rows:
+        ps = [(t, a) for t, a in row['calls'] if (t.callee_res() or '').endswith('Vec::push')]
+        eq = [pol for t, pol in row['atoms'] if (core(t)[0] == 'bin' and core(t)[1] == 'Eq') or (core(t)[0] == 'call' and core(t)[1].endswith('::eq'))]
+        ne = [not pol for t, pol in row['atoms'] if (core(t)[0] == 'bin' and core(t)[1] == 'Ne') or (core(t)[0] == 'call' and core(t)[1].endswith('::ne'))]
+        same = (eq + ne)[0] if (eq + ne) else None
+        if same is True:
+            seen.add('extend')
+            ctx.require(not ps and row['delta']['count'] == 1, e, 'rle-extend', 'an element equal to the current run value extends the run by one',
+                        'an equal element pushes %d entries and changes the count by %s' % (len(ps), row['delta']['count']))
+        elif same is False:
+            seen.add('close')
+            v = peel(ps[0][1][1]) if len(ps) == 1 else None
+            newc = row['env'].get(cnt)
+            ok = v is not None and v[0] == 'agg' and v[1] == 'tuple' and len(v[3]) == 2 and core(v[3][1]) == core(('var', e.var_name(cnt) or '', cnt)) and \
+                newc is not None and match(core(newc), Const(1))
+            ctx.require(ok, e, 'rle-close', 'a different element pushes (run value, count) and restarts the count at 1',
+                        'a different element pushes %s and sets the count to %s' % ([show_in(e, a[1])[:60] for t, a in ps], show_in(e, newc)[:30] if newc else 'nothing'))
+        else:
+            ctx.fail(e, 'rle-path', 'an iteration path of run_length_encode does not compare the element with the run value')
+    ctx.require(seen == {'extend', 'close'}, e, 'rle-paths', 'run_length_encode extends or closes a run per element', 'paths: %s' % sorted(seen))
+    tail = [t for t in pushes_all if t.bb not in lps[0].blocks]
+    ctx.require(len(tail) == 1 and all(cfg.dominates(e, lps[0].header, t.bb) for t in tail), e, 'rle-last-run', 'the last run is pushed after the loop', 'pushes after the loop: %d' % len(tail))
+    inits = [core(v) for s_, v in local_defs(e, cnt) if cfg.dominates(e, s_.bb, lps[0].header)]
+    ctx.require(len(inits) == 1 and match(inits[0], Const(1)), e, 'rle-init', 'the first run starts with count 1', 'initial count: %s' % inits)
+    d = ctx.body('utils::run_length_decode')
+    outs = state_locals(d, r'^std::vec::Vec<T>$')
+    segs = seq_of_var(ctx.facts, d, outs[0]) if len(outs) == 1 else None
+    ok = segs is not None and len(segs) == 1 and segs[0].kind == 'nest' and not segs[0].conds and match(core(segs[0].src), ('arg', 1, ANY)) and len(segs[0].inner) == 1
+    if ok:
+        from rules.common import range_bounds
+        inn = segs[0].inner[0]
+        rb = range_bounds(inn.src) if inn.kind == 'each' else None
+        ok = inn.kind == 'each' and not inn.conds and rb is not None and rb[0] == 0 and rb[1] == ('field', _IT, 1) and core(inn.elem) == ('field', _IT, 0)
+        if not ok and inn.kind == 'repeat':
+            ok = core(inn.elem) == ('field', _IT, 0) and core(inn.count) == ('field', _IT, 1)
+    ctx.require(ok, d, 'rle-decode', 'run_length_decode repeats every value `count` times, in order', 'run_length_decode builds %s' % [repr(x)[:140] for x in segs or ()])
+
+
 @rule('C16', 'R-C16-10', 'T13 PAIR (character positions <-> byte positions)',
       'CharString::byte_start_end walks the run-length table of cluster lengths with the right carries (bytes += count * num_bytes, '
       'characters += count, return inside the run that contains n); char_byte_len, char_range_to_byte_range (end of the LAST character), '
@@ -481,3 +582,4 @@ def charstring_positions(ctx):
       'window denote the same positions')
 def r10(ctx):
     charstring_positions(ctx)
+    run_length_table(ctx)
